@@ -1,4 +1,5 @@
 import RedactVerif.Props.C01
+import RedactVerif.Props.FactsConsts
 /-
 C03 — no envelope spans a line break: each output line is redactable alone.
 
